@@ -26,7 +26,11 @@ static void apply_w(std::string &f,const W &w,size_t k){ if(k==0) return; if(f.s
 static std::string payload(int kind,int variant){ size_t lens[]={0,1,16,495,496,497,1100}; if(kind<7){ std::string s(lens[kind],0); for(size_t i=0;i<s.size();i++) s[i]=(char)('A'+variant*7+(i*31+kind)%53); return s; }
 	if(kind==7){ std::string s(700,'p'); s[690]=(char)('0'+variant); return s; } // long common prefix, differ in the last sector
 	if(kind==8){ std::string s(520,'q'); s[3]=(char)('0'+variant); return s; } // differ in sector 0 only
-	std::string s(600,'r'); return s; } // kind 9: identical data (only the deadline differs)
+	if(kind==9){ std::string s(600,'r'); return s; } // kind 9: identical data (only the deadline differs)
+	// values longer than 4096 bytes (the checksum helper and the read loop work in blocks): versions differ in two places beyond byte 4096, in different sectors
+	if(kind==10){ std::string s(5000,'t'); s[4150]=(char)('0'+variant); s[4700]=(char)('0'+variant); return s; }
+	if(kind==11){ std::string s(9000,'u'); s[4097]=(char)('0'+variant); s[8990]=(char)('0'+variant); return s; }
+	{ std::string s(4500,0); for(size_t i=0;i<s.size();i++) s[i]=(char)('a'+variant*5+(i*13)%23); return s; } } // kind 12: differs everywhere
 static void bad(const std::string &sig,const std::string &what,const std::string &cs){ vf::violation(sig,what+" ["+cs+"]","\"op\":"+vf::jstr(sig)+",\"case\":"+vf::jstr(cs)); }
 
 // one recovery of one crash state. saves = every save of the history (incl. the in-flight one).
@@ -68,12 +72,12 @@ static void crash_states(bool old_present,const std::string &old,const std::vect
 		for(size_t o=0;o<opts[sct].size();o++){ choice[sct]=opts[sct][o]; rec(sct+1); } }; rec(0);
 }
 
-static void histories(int sh,int n,bool flock){ bool th=vf::thorough(); int kinds[]={0,1,2,3,4,5,6,7,8,9}; int nk=10; time_t dls[]={1000000-5,1000000+10,1000000+20}; int idx=0;
+static void histories(int sh,int n,bool flock){ bool th=vf::thorough(); int kinds[]={0,1,2,3,4,5,6,7,8,9,10,11,12}; int nk=13; time_t dls[]={1000000-5,1000000+10,1000000+20}; int idx=0;
 	// history = [older (optional)] old (optional) -> new ; payload kinds x variants; deadlines
-	for(int hlen=1;hlen<=3;hlen++) for(int ko=0;ko<nk;ko++) for(int kn=0;kn<nk;kn++){ if(hlen==1&&ko!=0) continue; if(hlen==3&&!th&&(ko%3||kn%3)) continue; for(int dn=0;dn<3;dn++) for(int dold=1;dold<3;dold++){ if(hlen==1&&dold!=1) continue; if(!th&&hlen>1&&dn==0&&dold==2) continue;
+	for(int hlen=1;hlen<=3;hlen++) for(int ko=0;ko<nk;ko++) for(int kn=0;kn<nk;kn++){ if(hlen==1&&ko!=0) continue; if(hlen==3&&!th&&(ko%3||kn%3)) continue; if(ko>=10||kn>=10){ /* big values: overwrite histories only, a fixed menu of pairs */ if(hlen!=2) continue; bool pair=(ko==kn)||(ko==10&&kn==12)||(ko==12&&kn==10)||(ko==3&&kn==10)||(ko==10&&kn==3)||(ko==11&&kn==10); if(!pair) continue; } for(int dn=0;dn<3;dn++) for(int dold=1;dold<3;dold++){ if(hlen==1&&dold!=1) continue; if((ko>=10||kn>=10)&&(dn!=2||dold!=1)) continue; if(!th&&hlen>1&&dn==0&&dold==2) continue;
 		if((idx++%n)!=sh) continue; std::vector<Save> saves; g_now=1000000;
-		if(hlen==3){ Save s; s.deadline=1000000+15; s.data=payload((ko+3)%nk,2); saves.push_back(s); } if(hlen>=2){ Save s; s.deadline=dls[dold]; s.data=payload(kinds[ko],0); saves.push_back(s); }
-		{ Save s; s.deadline=dls[dn]+ (hlen>=2&&dls[dn]==dls[dold]? 1:0); s.data=payload(kinds[kn],1); if(kinds[kn]==9&&hlen>=2&&kinds[ko]==9) s.data=saves.back().data; saves.push_back(s); }
+		if(hlen==3){ Save s; s.deadline=1000000+15; s.data=payload((ko+3)%10,2); saves.push_back(s); } if(hlen>=2){ Save s; s.deadline=dls[dold]; s.data=payload(kinds[ko],0); saves.push_back(s); }
+		{ Save s; s.deadline=dls[dn]+ (hlen>=2&&dls[dn]==dls[dold]? 1:0); s.data=payload(kinds[kn],1); if(kinds[kn]==9&&hlen>=2&&kinds[ko]==9) s.data=saves.back().data; if(kinds[kn]>=10) vf::guard("histories_with_values_over_4096_bytes"); saves.push_back(s); }
 		std::string cs="history:"; for(size_t i=0;i<saves.size();i++) cs+=" save("+std::to_string(saves[i].data.size())+"B#"+vf::hex(saves[i].data.substr(0,2))+",dl"+std::to_string((long)(saves[i].deadline-1000000))+")"; if(flock) cs+=" flock"; vf::announce(cs);
 		// run the earlier saves for real, then the last one with the write log
 		unlink(fname().c_str()); { session_file_storage st(g_dir,1,flock?2:1,flock); for(size_t i=0;i+1<saves.size();i++) st.save(SID,saves[i].deadline,saves[i].data); }
@@ -95,9 +99,9 @@ static void garbage(int sh,int n){ // well-formed names, arbitrary contents
 }
 
 int main(int argc,char **argv){ vf::init(argc,argv,"C18","fault_enumeration"); int n=16;
-	vf::C().rule="histories of 1..3 saves on one sid over 10 payload kinds (0,1,16,495,496,497,1100 bytes; pairs differing only in the last sector / only in sector 0 / only in the deadline) x deadlines {past, future, later}; for the last save: every prefix of the write() call sequence and every byte prefix of the in-flight data call (process crash; the 16-byte header write is atomic), every assignment of {old, after-header, final} to sector 0 and {old, final} to each later 512-byte sector x every admissible file length (machine crash, no fsync is issued), absent/empty file; each recovered by a fresh storage object with scripts {load; gc,load; load,gc,load} under clocks {before, just after each deadline, exactly at the last one}; plus garbage files (every length 0..20, perturbed size/crc/deadline fields, bit flips). distinct = (load verdict, length, deadline, script); non-trivial = all";
+	vf::C().rule="histories of 1..3 saves on one sid over 13 payload kinds (0,1,16,495,496,497,1100 bytes; 4500/5000/9000-byte values whose versions differ only in two places beyond byte 4096, overwritten in 9 old->new pairs; pairs differing only in the last sector / only in sector 0 / only in the deadline) x deadlines {past, future, later}; for the last save: every prefix of the write() call sequence and every byte prefix of the in-flight data call (process crash; the 16-byte header write is atomic), every assignment of {old, after-header, final} to sector 0 and {old, final} to each later 512-byte sector x every admissible file length (machine crash, no fsync is issued), absent/empty file; each recovered by a fresh storage object with scripts {load; gc,load; load,gc,load} under clocks {before, just after each deadline, exactly at the last one}; plus garbage files (every length 0..20, perturbed size/crc/deadline fields, bit flips). distinct = (load verdict, length, deadline, script); non-trivial = all";
 	vf::assume("the 16-byte header lies in sector 0 and a sector is written atomically; unwritten tail bytes read as zeros"); vf::assume("CRC-32 cannot prove absence of old/new mixtures for arbitrary payloads: the claim is for the enumerated payload pairs, each mixture actually constructed and loaded"); vf::assume("at now == deadline either verdict is accepted; concurrent access to one sid is not covered");
 	if(!vf::C().replay_file.empty()) printf("replay: C18 cases are deterministic; re-running the quick tier reproduces the case named in the replay file\n");
 	vf::parallel(n,n,[&](int sh){ g_dir=vf::scratch_dir()+"/sess"+std::to_string(sh); mkdir(g_dir.c_str(),0777); histories(sh,n,false); if(vf::thorough()) histories(sh,n,true); garbage(sh,n); vf::guard("crash_states",n_states); std::string cmd="rm -rf '"+g_dir+"'"; if(system(cmd.c_str())){} },vf::thorough()?1500:250);
-	vf::require_guard("process_crash_states"); vf::require_guard("machine_crash_states"); vf::require_guard("recovered_complete_value"); vf::require_guard("recovered_nothing"); vf::require_guard("saves_logged"); vf::require_guard("garbage_files");
+	vf::require_guard("process_crash_states"); vf::require_guard("machine_crash_states"); vf::require_guard("recovered_complete_value"); vf::require_guard("recovered_nothing"); vf::require_guard("saves_logged"); vf::require_guard("garbage_files"); vf::require_guard("histories_with_values_over_4096_bytes");
 	return vf::finish(); }
